@@ -502,13 +502,17 @@ class RefPeer:
                 namelist(self.hostkey_algs) + namelist(self.ciphers_cs) +
                 namelist(self.ciphers_sc) + namelist(self.macs_cs) + namelist(self.macs_sc) +
                 namelist(self.comps_cs) + namelist(self.comps_sc) + namelist([]) +
-                namelist([]) + boolean(False) + u32(0))
+                namelist([]) + boolean(bool(getattr(self, 'follows', False)) and not self.kex_done) + u32(0))
 
     def send_kexinit(self, payload=None):
         self.my_kexinit = payload or self.build_kexinit()
         self.in_kex = True
         self.newkeys_sent = self.newkeys_rcvd = False
         self.send(self.my_kexinit)
+        if getattr(self, 'follows', False) and not self.kex_done and getattr(self, 'guess_payload', None):
+            # RFC 4253 7.1: first_kex_packet_follows with a guess; when the guess is wrong the peer must
+            # ignore this packet (it still consumes a sequence number)
+            self.send(self.guess_payload)
 
     @staticmethod
     def parse_kexinit(payload):
